@@ -241,6 +241,9 @@ def gen_pool_cases(rng, tier):
     # ---- metamorphic pairs (first half of C08) --------------------------------------------------
     for c in gen_meta_cases(rng, 40 if quick else 400):
         yield c
+    for _ in range(1 if quick else 10):
+        for c in gen_meta_grid(rng):
+            yield c
 
 
 def revcomp_row(s):
@@ -286,6 +289,34 @@ def gen_meta_cases(rng, per_kind):
         rows2 = [rows[i] for i in q]
         yield Case("distpair", ["rowperm", ",".join(map(str, q)), m, rm, gm, alpha, rows_str(rows), "_", rows_str(rows2), "_", cp],
                    nt, "meta-rowperm")
+
+
+def gen_meta_grid(rng):
+    """every model x {all sites, gap sites removed}: integer weight k (not 1) against k-fold replication, and a
+    non-constant integer weight vector against the matching replication, on an alignment that has differences in the
+    gap-free columns and a few gapped columns (a weighted numerator over an unweighted denominator shows only here)"""
+    for m in MODELS:
+        for rm in (0, 1):
+            n, L = rng.randint(3, 5), rng.choice([12, 20, 30])
+            base = [rng.choice("ACGT") for _ in range(L)]
+            rows = []
+            for i in range(n):
+                r = [c if rng.random() < 0.7 else rng.choice("ACGT") for c in base]
+                for j in rng.sample(range(L), 2):
+                    if rng.random() < 0.5:
+                        r[j] = "-"
+                rows.append(("s%d" % i, "".join(r)))
+            alpha = rng.choice(["0", "0", "0.5"]) if m not in ("rawdist", "pdist", "pdistamb") else "0"
+            cp = rng.choice([1, 3])
+            k = rng.choice([2, 3])
+            rep = [(nm, sq * k) for nm, sq in rows]
+            kind, par = ("same", "_")
+            yield Case("distpair", [kind, par, m, rm, 0, alpha, rows_str(rep), "_", rows_str(rows), weights_str([str(k)] * L), cp],
+                       True, "meta-grid-weight-k")
+            ws = [rng.choice([1, 1, 2, 3]) for _ in range(L)]
+            rep2 = [(nm, "".join(ch * w for ch, w in zip(sq, ws))) for nm, sq in rows]
+            yield Case("distpair", ["same", "_", m, rm, 0, alpha, rows_str(rep2), "_", rows_str(rows), weights_str([str(w) for w in ws]), cp],
+                       True, "meta-grid-weights")
 
 
 def accepts(c):
